@@ -105,6 +105,7 @@ func main() {
 	driver := flag.String("driver", "rlvdriver", "model driver executable")
 	out := flag.String("out", "", "write the JSON report here (default stdout)")
 	corpus := flag.String("corpus", "", "file of protocol lines that run first")
+	dump := flag.String("dump", "", "write the protocol lines and the real answers to this file and exit (debugging)")
 	flag.Parse()
 	m := models[*name]
 	if m == nil {
@@ -137,6 +138,14 @@ func main() {
 		}
 	}
 	os.Stdout = saved
+	if *dump != "" {
+		var sb strings.Builder
+		for i := range lines {
+			sb.WriteString(lines[i] + "\n")
+		}
+		os.WriteFile(*dump, []byte(sb.String()), 0o644)
+		return
+	}
 	cmd := exec.Command(*driver)
 	cmd.Stdin = strings.NewReader(strings.Join(lines, "\n") + "\n")
 	var buf bytes.Buffer
